@@ -217,7 +217,16 @@ func ruleRefShapes(c *Ctx) {
 					return []Ev{{Kind: fmt.Sprintf("state=%d", k)}}
 				}
 			}
-			if call, ok := isCallTo(in, self); ok {
+			selfCall := false
+			var call ssa.CallInstruction
+			if cl, ok := isCallTo(in, self); ok {
+				selfCall, call = true, cl
+			} else if cl, ok := in.(ssa.CallInstruction); ok {
+				if sf := cl.Common().StaticCallee(); sf != nil && t.onStack(fr, sf) && len(callArgs(cl.Common())) > 2 {
+					selfCall, call = true, cl // the recursive descent lives in a merged helper
+				}
+			}
+			if selfCall {
 				b, isC := constBool(callArgs(call.Common())[2])
 				if isC && b {
 					return []Ev{{Kind: "recurse", Stop: true}}
@@ -345,9 +354,6 @@ func ruleRefShapes(c *Ctx) {
 		unsend := p.Method("server.Subscription.Unsend")
 		sp := &Spec{EdgeLimit: 1}
 		sp.Classify = func(t *Tracer, fr *Frame, in ssa.Instruction) []Ev {
-			if fr != t.RootFr {
-				return nil
-			}
 			if _, ok := isCallTo(in, disp); ok {
 				return []Ev{{Kind: "Dispose", Stop: true}}
 			}
@@ -522,9 +528,10 @@ func ruleEdgeSentOnce(c *Ctx) {
 		}
 		return false, false
 	}
+	handlers := map[string]bool{"(*server.Subscription).processCollectionEvent": true, "(*server.Subscription).processModelEvent": true}
 	for _, fn := range p.Repo {
-		top := fnName(TopLevel(fn))
-		if !strings.HasPrefix(top, "(*server.Subscription).process") {
+		top, ok := p.ownedBy(fn, func(nm string) bool { return handlers[nm] })
+		if !ok {
 			continue
 		}
 		allInstrs(fn, func(in ssa.Instruction) {
